@@ -558,7 +558,9 @@ class GroupKeyEnvelope:
             key_info = os.urandom(32)
             kek = kdf(
                 hash_algo,
-                self.l2_key,
+                # At L2 index 31 the server may omit the L2 key and only send
+                # the L1 key it is derived from (MS-GKDI 2.2.4).
+                self.l2_key or compute_l2_key(hash_algo, self.l1, self.l2, self),
                 KDS_SERVICE_LABEL,
                 key_info,
                 32,
